@@ -31,9 +31,9 @@ PLess(a, b) == Known(a) /\ Known(b) /\ KeyLess(Units(a), Units(b))
 PEq(a, b)   == (a = b) \/ (Known(a) /\ Known(b) /\ Units(a) = Units(b))
 
 P3 == INSTANCE CfbPhys WITH SectorLen <- 512, MiniLen <- 64, Cutoff <- 4096, FatPer <- 128, DirPer <- 4, DifatHdr <- 109,
-                            DirCount <- FALSE, NameLess <- PLess, NameEq <- PEq, ModuloPolicy <- FALSE
+                            DirCount <- FALSE, NameLess <- PLess, NameEq <- PEq, ModuloPolicy <- FALSE, TrackData <- FALSE, Scrub <- TRUE
 P4 == INSTANCE CfbPhys WITH SectorLen <- 4096, MiniLen <- 64, Cutoff <- 4096, FatPer <- 1024, DirPer <- 32, DifatHdr <- 109,
-                            DirCount <- TRUE, NameLess <- PLess, NameEq <- PEq, ModuloPolicy <- FALSE
+                            DirCount <- TRUE, NameLess <- PLess, NameEq <- PEq, ModuloPolicy <- FALSE, TrackData <- FALSE, Scrub <- TRUE
 
 VARIABLES q, ver, l, skip
 vars == <<q, ver, l, skip>>
